@@ -161,7 +161,6 @@ func VH_C02_settle_region_Q() {
 	win, c1 := vhWindingAt(p, x, y)
 	wout, c2 := vhWindingAt(r, x, y)
 	vAssume(c1 && c2)
-	vKnown("D38", shape == 10)
 	vAssert("C02.settle.same_region", rule.Fills(win) == (wout != 0))
 	vAssert("C02.settle.canonical_winding_0_or_1", wout == 0 || wout == 1)
 }
@@ -247,7 +246,6 @@ func VH_C01_boolean_region_Q() {
 		want = fp
 	}
 	vKnown("D39", op == 4 && (pair == 3 || pair == 4 || pair == 12 || pair == 14)) // DivideBy of a subject with a hole
-	vKnown("D41", (op == 1 || op == 2) && pair == 3)
 	vAssert("C01.boolean.set_algebra", (wr != 0) == want)
 }
 
